@@ -133,6 +133,20 @@ var spKinds = []spKind{
 		}
 		return out
 	}, false, false, true},
+	{"IndexListExpr.Indices", func(n int) string {
+		return "package p\n\nvar x = g[\n" + labels(n, func(i int) string { return fmt.Sprintf("\te%d,", i) }, "\n") + "\n]\n"
+	}, func(f *dst.File) []dst.Node {
+		var out []dst.Node
+		switch x := f.Decls[0].(*dst.GenDecl).Specs[0].(*dst.ValueSpec).Values[0].(type) {
+		case *dst.IndexExpr:
+			out = append(out, x.Index)
+		case *dst.IndexListExpr:
+			for _, s := range x.Indices {
+				out = append(out, s)
+			}
+		}
+		return out
+	}, false, false, true},
 	// the same lists with package-qualified elements: decorated with import resolution the elements are
 	// single identifiers carrying a path, and the import-managing restorer renders them itself
 	{"CompositeLit.Elts(qualified)", func(n int) string {
